@@ -1545,9 +1545,9 @@ def ForwardDynamicsTrajectory(thetalist, dthetalist, taumat, g, Ftipmat, \
     """
     taumat = np.array(taumat).T
     Ftipmat = np.array(Ftipmat).T
-    thetamat = taumat.copy().astype(np.float)
+    thetamat = taumat.copy().astype(float)
     thetamat[:, 0] = thetalist
-    dthetamat = taumat.copy().astype(np.float)
+    dthetamat = taumat.copy().astype(float)
     dthetamat[:, 0] = dthetalist
     for i in range(np.array(taumat).shape[1] - 1):
         for j in range(intRes):
